@@ -25,6 +25,7 @@ import copy
 
 from .pm import AnalysisError, norm
 from . import gi, df
+from . import expand as _expand
 from .gi import f_and, f_or, f_not, Exit
 
 MAX_NODES = 8000
@@ -32,6 +33,37 @@ MAX_NODES = 8000
 
 def _size(e):
     return sum(1 for _ in ast.walk(e))
+
+
+_BOOL_FUNCS = ("bool", "isinstance", "issubclass", "any", "all", "callable", "hasattr")
+_BOOL_METHODS = ("startswith", "endswith", "isdigit", "isalpha", "isalnum", "isspace", "islower", "isupper", "issubset", "issuperset", "isdisjoint")
+
+
+def _is_bool_expr(e, callee_of=None, depth=0):
+    """the expression is True or False whatever its operands are"""
+    if isinstance(e, ast.Constant):
+        return isinstance(e.value, bool)
+    if isinstance(e, ast.Compare):
+        return True
+    if isinstance(e, ast.UnaryOp) and isinstance(e.op, ast.Not):
+        return True
+    if isinstance(e, ast.BoolOp):
+        return all(_is_bool_expr(v, callee_of, depth) for v in e.values)
+    if isinstance(e, ast.IfExp):
+        return _is_bool_expr(e.body, callee_of, depth) and _is_bool_expr(e.orelse, callee_of, depth)
+    if isinstance(e, ast.Call):
+        if isinstance(e.func, ast.Name) and e.func.id in _BOOL_FUNCS:
+            return True
+        if isinstance(e.func, ast.Attribute) and (e.func.attr in _BOOL_METHODS or e.func.attr.startswith(("is_", "has_"))):
+            return True         # predicates by name: is_coinbase(), has_witness_data() ... answer yes or no
+        if callee_of is not None and depth < 2:
+            fn = callee_of(e)
+            if fn is not None:
+                rets = [n for n in ast.walk(fn) if isinstance(n, ast.Return)]
+                inner = [n for n in ast.walk(fn) if n is not fn and isinstance(n, (ast.FunctionDef, ast.Lambda))]
+                if rets and not inner and all(r.value is not None and _is_bool_expr(r.value, None, depth + 1) for r in rets):
+                    return True
+    return False
 
 
 def _beta(e):
@@ -289,6 +321,8 @@ class Canon:
                 for i_, a_ in enumerate(e.args):
                     if isinstance(a_, ast.Call) and isinstance(a_.func, ast.Name) and a_.func.id in ("list", "tuple") and len(a_.args) == 1 and not a_.keywords:
                         e.args[i_] = a_.args[0]
+            if ft == "getattr" and len(e.args) == 2 and not e.keywords and isinstance(e.args[1], ast.Constant) and isinstance(e.args[1].value, str) and e.args[1].value.isidentifier():
+                return ast.Attribute(e.args[0], e.args[1].value, ast.Load())      # getattr(x, "name") is x.name
             if ft == "list" and len(e.args) == 1 and not e.keywords and isinstance(e.args[0], (ast.ListComp, ast.List)):
                 return e.args[0]
             if ft in _STRUCT_FUNCS and e.args and isinstance(e.args[0], ast.Constant) and isinstance(e.args[0].value, (str, bytes)) and e.args[0].value[:1] in ("!", b"!"):
@@ -839,10 +873,11 @@ class SymWalker:
             if len(t.ops) == 1 and isinstance(t.left, ast.Call) and isinstance(t.left.func, ast.Name) and t.left.func.id == "len" and isinstance(t.comparators[0], ast.Constant):
                 k = t.comparators[0].value
                 x = t.left.args[0]
+                tr_ = (lambda: self.atomize(x, True)) if isinstance(x, ast.ListComp) else (lambda: self.leaf(x, "truthy(%s)" % norm(x)))
                 if (isinstance(t.ops[0], ast.Gt) and k == 0) or (isinstance(t.ops[0], ast.NotEq) and k == 0) or (isinstance(t.ops[0], ast.GtE) and k == 1):
-                    return self.leaf(x, "truthy(%s)" % norm(x))
+                    return tr_()
                 if (isinstance(t.ops[0], ast.Eq) and k == 0) or (isinstance(t.ops[0], ast.Lt) and k == 1) or (isinstance(t.ops[0], ast.LtE) and k == 0):
-                    return f_not(self.leaf(x, "truthy(%s)" % norm(x)))
+                    return f_not(tr_())
             if len(t.ops) == 1 and isinstance(t.comparators[0], ast.Constant) and t.comparators[0].value is None and isinstance(t.ops[0], (ast.Eq, ast.NotEq)):
                 f = self.leaf(ast.Compare(t.left, [ast.Is()], [t.comparators[0]]), "%s is None" % norm(t.left))
                 return f if isinstance(t.ops[0], ast.Eq) else f_not(f)
@@ -855,6 +890,13 @@ class SymWalker:
         b = _bit_of(t)
         if b is not None:
             return self.leaf(t, "bit(%s, %s)" % (b[0], b[1]))
+        if isinstance(t, ast.ListComp) and len(t.generators) == 1:
+            # a list built from X is non-empty when some element of X passes its filter
+            g = t.generators[0]
+            if not g.ifs:
+                return self.atomize(g.iter, True)
+            cond = g.ifs[0] if len(g.ifs) == 1 else ast.BoolOp(ast.And(), list(g.ifs))
+            return self.atomize(ast.Call(ast.Name("any", ast.Load()), [ast.GeneratorExp(cond, [ast.comprehension(g.target, g.iter, [], 0)])], []), True)
         return self.leaf(t, "truthy(%s)" % norm(t))
 
     # ------------------------------------------------------------------ walk
@@ -925,6 +967,8 @@ class SymWalker:
         keys = set.intersection(*[set(s.env) for s in states])
         env = {k: states[0].env[k] for k in keys if all(norm(s.env[k]) == norm(states[0].env[k]) for s in states)}
         return State(env, f_or(*[s.reach for s in states]))
+
+    _frames = ()
 
     def block(self, body, states):
         for st in body:
@@ -1063,6 +1107,20 @@ class SymWalker:
         return None
 
     def stmt(self, st, states):
+        if isinstance(st, _expand.InlineBlock):
+            # the body of a helper added since the review, spliced in where it was called (sa/expand.py)
+            frame = []
+            self._frames = tuple(self._frames) + (frame,)
+            try:
+                out = self.block(st.body, states)
+            finally:
+                self._frames = self._frames[:-1]
+            return self._dedupe(out + frame)
+        if isinstance(st, _expand.InlineReturn):
+            if not self._frames:
+                raise AnalysisError("jump outside an expanded helper")
+            self._frames[-1].extend(states)
+            return []
         if isinstance(st, (ast.Assign, ast.AnnAssign, ast.AugAssign, ast.Expr, ast.Return)):
             u = self._find_unrollable(st)
             if u is not None:
@@ -1072,6 +1130,33 @@ class SymWalker:
                 new = _replace_node(st, comp, lst)
                 new._orig = getattr(st, "_orig", st)
                 ast.copy_location(new, st)
+                return self.stmt(new, states)
+        if isinstance(st, ast.Return) and isinstance(st.value, ast.Compare) and len(st.value.ops) > 1 \
+                and not any(isinstance(c, ast.Call) and _impure(c) for m_ in st.value.comparators[:-1] for c in ast.walk(m_)):
+            cmp_ = st.value
+            parts, left = [], cmp_.left
+            for op_, right in zip(cmp_.ops, cmp_.comparators):
+                parts.append(ast.Compare(copy.deepcopy(left), [op_], [copy.deepcopy(right)]))
+                left = right
+            new = ast.Return(ast.BoolOp(ast.And(), parts))
+            new._orig = getattr(st, "_orig", st)
+            ast.copy_location(new, st)
+            ast.fix_missing_locations(new)
+            return self.stmt(new, states)
+        if isinstance(st, ast.Return) and isinstance(st.value, ast.BoolOp):
+            # `return a or b` is `return (a if a else b)`; a boolean a is True there
+            bo = st.value
+            first, rest = bo.values[0], (bo.values[1] if len(bo.values) == 2 else ast.BoolOp(bo.op, bo.values[1:]))
+            isb = _is_bool_expr(first, self.canon.callee_of)
+            if isb or not any(isinstance(c, ast.Call) and _impure(c) for c in ast.walk(first)):
+                if isinstance(bo.op, ast.Or):
+                    ie_ = ast.IfExp(first, ast.Constant(True) if isb else copy.deepcopy(first), rest)
+                else:
+                    ie_ = ast.IfExp(first, rest, ast.Constant(False) if isb else copy.deepcopy(first))
+                new = ast.Return(ie_)
+                new._orig = getattr(st, "_orig", st)
+                ast.copy_location(new, st)
+                ast.fix_missing_locations(new)
                 return self.stmt(new, states)
         ie = self._find_ifexp(st) if isinstance(st, (ast.Assign, ast.AnnAssign, ast.AugAssign, ast.Expr, ast.Return, ast.Raise)) else None
         if ie is not None:
@@ -1515,6 +1600,8 @@ def make_const_of(ctx, fi):
                     val = it.get(r[1].name, r[2])
                     if isinstance(val, (int, bytes, str)) and not isinstance(val, bool):
                         v = val
+                    elif isinstance(val, (tuple, list)) and 0 < len(val) <= 16 and all(isinstance(x, str) for x in val):       # tables of names
+                        v = tuple(val)
                 except Exception:
                     v = None
         cache[t] = v
@@ -1535,6 +1622,64 @@ def make_inliner(ctx, fi):
                 return node
         return None
     return resolve
+
+
+def _owner_class(fi):
+    while fi is not None:
+        if fi.cls is not None:
+            return fi.cls
+        fi = fi.parent
+    return None
+
+
+def make_stmt_resolver(ctx):
+    """(call, FuncInfo of the scope it is in) -> (FunctionDef, FuncInfo) for helpers ADDED SINCE THE REVIEW (absent from
+    the transcription of their module, spec/mod): those are expanded in place; reviewed functions stay calls"""
+    from . import modref
+
+    def resolve(call, fi):
+        if fi is None:
+            return None
+        f = call.func
+        callee = None
+        try:
+            if isinstance(f, ast.Name):
+                callee = ctx.p.functions.get("%s.%s" % (fi.qualname, f.id))
+                scope = fi
+                while callee is None and scope.parent is not None:
+                    scope = scope.parent
+                    callee = ctx.p.functions.get("%s.%s" % (scope.qualname, f.id))
+                if callee is None:
+                    top = fi
+                    while top.parent is not None:
+                        top = top.parent
+                    if f.id in set(top.params()) | set(df.assignments(top.node)):
+                        return None
+                    r = ctx.p.resolve_global(fi.module, f.id)
+                    callee = r if hasattr(r, "node") and isinstance(getattr(r, "node", None), ast.FunctionDef) else None
+            elif isinstance(f, ast.Attribute) and isinstance(f.value, ast.Name) and f.value.id in ("self", "cls"):
+                c = _owner_class(fi)
+                if c is not None:
+                    callee = ctx.p.lookup_method(c, f.attr)
+        except Exception:
+            return None
+        if callee is None or not isinstance(getattr(callee, "node", None), ast.FunctionDef) or callee.node is fi.node:
+            return None
+        if modref.is_reviewed(callee):
+            return None
+        return callee.node, callee
+    return resolve
+
+
+def expanded(ctx, fi):
+    """fi's FunctionDef with the helpers added since the review spliced in (fi.node itself when there are none)"""
+    cache = ctx.cache.setdefault("expanded", {})
+    if fi.qualname not in cache:
+        try:
+            cache[fi.qualname] = _expand.expand_function(fi.node, make_stmt_resolver(ctx), fi)
+        except RecursionError:
+            cache[fi.qualname] = (fi.node, [])
+    return cache[fi.qualname][0]
 
 
 def make_callee_resolver(ctx, fi):
@@ -1628,8 +1773,9 @@ def mutated_locals(func_node):
 
 def walk(ctx, fi, leaf=None, keep=(), body=None, int_names=None, inline=False, feasible=None):
     """convenience: canonical walker of a function with module constants resolved"""
-    keep = set(keep) | (mutated_locals(fi.node) - set(fi.params()))
-    w = SymWalker(fi.node, Canon(make_const_of(ctx, fi), int_names, make_inliner(ctx, fi) if inline else None), leaf, keep=keep, feasible=feasible)
+    node = expanded(ctx, fi) if body is None else fi.node
+    keep = set(keep) | (mutated_locals(node) - set(fi.params()))
+    w = SymWalker(node, Canon(make_const_of(ctx, fi), int_names, make_inliner(ctx, fi) if inline else None), leaf, keep=keep, feasible=feasible)
     w.run(body)
     return w
 
@@ -1675,6 +1821,7 @@ def enclosing_if(root, stmt):
     if isinstance(stmt, ast.Assert):
         return stmt
     best = None
+    root = _expand.EXPANDED.get(id(root), root)
     for n in ast.walk(root):
         if isinstance(n, ast.If):
             for s in n.body:
@@ -2464,11 +2611,19 @@ def compare_summaries(code, ref, near=0.7):
     # a verdict of its own needs a difference that cannot be a reorganisation: the same skeleton with a constant, an
     # operator or a name exchanged; the same tests combined to a different condition; tests added to or dropped from
     # a condition.  Every component paired but the differences larger than that: 'near' (a witness, not a verdict).
+    _atoms = lambda f: set(a for a in (gi.f_opaques(f) if f not in (True, False) else []) if isinstance(a, str))
+    all_code, all_ref = set(), set()
+    for f_ in ga.values():
+        all_code |= _atoms(f_)
+    for f_ in gb.values():
+        all_ref |= _atoms(f_)
     for d in details:
+        if d[0] == "condition" and any(k2[0] == d[1] for k2 in unmatched_code):
+            return "near", details      # the cases this component lost may have gone to a component the reference does not have
         if d[0] == "condition":
             k = (d[1], d[2].rsplit(" when ", 1)[0])
             fa, fb = ga.get(k), gb.get(k)
-            if fa is None or fb is None or not _condition_mutation(fa, fb):
+            if fa is None or fb is None or not _condition_mutation(fa, fb, all_code, all_ref):
                 return "near", details
         elif d[0] == "differs":
             if not _mutation_like(d[2], d[3]):
@@ -2491,7 +2646,7 @@ def _mutation_like(ref_text, code_text, limit=3):
     return 0 < changed <= limit
 
 
-def _condition_mutation(f_code, f_ref):
+def _condition_mutation(f_code, f_ref, all_code=None, all_ref=None):
     """the two conditions test the same things (or the same but for one constant / operator) and still differ"""
     atoms = lambda f: set(a for a in (gi.f_opaques(f) if f not in (True, False) else []) if isinstance(a, str))
     a, b = atoms(f_code), atoms(f_ref)
@@ -2503,7 +2658,14 @@ def _condition_mutation(f_code, f_ref):
     if len(only_a) == len(only_b) == 1 and _mutation_like(only_b[0], only_a[0], 2):
         return True
     if POLICY != "strict" and (not only_a or not only_b):
-        return True             # tests added (a case now skipped or refused) or dropped (a case no longer checked)
+        # tests added (a case now skipped or refused) or dropped (a case no longer checked) -- provided the function as a
+        # whole only gained or only lost tests: one that lost some and gained others may test the same thing another way
+        if all_code is None or all_ref is None:
+            return True
+        if not only_a and not (all_code - all_ref):
+            return True
+        if not only_b and not (all_ref - all_code):
+            return True
     return False
 
 
@@ -2537,7 +2699,7 @@ def reference_status(ctx, fi, ref_source, ref_names, int_names=None, leaf=None, 
     canon_ref = Canon(ref_const_of if (ref_consts or dotted_consts) else None, int_names,
                       (lambda c: ref_funcs.get(c.func.id) if isinstance(c.func, ast.Name) and c.func.id != "_" else None) if inline else None)
     canon_code.callee_of = canon_ref.callee_of = make_callee_resolver(ctx, fi)
-    s_code = summarize(fi.node, canon_code, leaf, keep)
+    s_code = summarize(expanded(ctx, fi), canon_code, leaf, keep)
     best = None
     for ref_name in ref_names:
         ref_node = None
@@ -2619,6 +2781,18 @@ def decisive_set(f, univ, empty, assume=None):
     return s, n
 
 
+def truth_formula(w):
+    """the condition under which the walked function returns a true value: over every return exit, its path
+    condition and the truth of the value returned there (the spelling -- one expression, early returns -- is immaterial)"""
+    parts = []
+    for e in w.exits:
+        if e.kind == "raise":
+            continue
+        if e.kind == "return" and e.value is not None:
+            parts.append(f_and(e.cond, w.atomize(e.value, True)))
+    return f_or(*parts) if parts else False
+
+
 def exits_formula(w, pred):
     return f_or(*[e.cond for e in w.exits if pred(e)]) if any(pred(e) for e in w.exits) else False
 
@@ -2667,6 +2841,7 @@ def handler_names(try_node):
 def enclosing_tries(func_node, node):
     """try statements whose BODY contains node, innermost last"""
     out = []
+    func_node = _expand.EXPANDED.get(id(func_node), func_node)
     for n in ast.walk(func_node):
         if isinstance(n, ast.Try) and any(x is node for s in n.body for x in ast.walk(s)):
             out.append(n)
